@@ -4,7 +4,9 @@ import json, os, re, shutil, subprocess, sys, time, tempfile, signal
 VERIF = os.path.dirname(os.path.dirname(os.path.abspath(__file__)))
 SPEC = os.path.join(VERIF, "spec")
 HARNESS = os.path.join(VERIF, "harness")
-REPO = "/repo"
+# The registered commands always verify /repo. VERIF_REPO is a development aid (seeded-change experiments in scratch
+# worktrees outside /repo): the harness is then copied and its replace directive pointed at that tree.
+REPO = os.environ.get("VERIF_REPO", "/repo")
 NCPU = os.cpu_count() or 4
 
 GOENV = dict(os.environ, GOFLAGS="-mod=mod", GOPROXY="off")
@@ -40,7 +42,7 @@ _tlc_depth = re.compile(r"The depth of the complete state graph search is (\d+)"
 
 
 def tlc(wd, module, cfg=None, workers=None, timeout=900, simulate=None, depth=None, seed=None,
-        coverage=False, deque=False, extra=(), allow_violation=False, heap=None):
+        coverage=False, deque=False, extra=(), allow_violation=False, heap=None, outfile=None, keep_prefixes=('<<"CASE"', '<<"VIOL"', '<<"DIVERGE"')):
     """Run TLC in wd. Returns dict(ok, out, generated, distinct, depth, violated)."""
     meta = tempfile.mkdtemp(prefix="meta.", dir=wd)
     cmd = ["java", "-XX:+UseParallelGC", "-Xss512m"]
@@ -63,9 +65,21 @@ def tlc(wd, module, cfg=None, workers=None, timeout=900, simulate=None, depth=No
     cmd += list(extra) + [module]
     t0 = time.time()
     try:
-        p = subprocess.run(cmd, cwd=wd, stdout=subprocess.PIPE, stderr=subprocess.STDOUT, timeout=timeout, text=True,
-                           errors="replace")
-        out, rc = p.stdout, p.returncode
+        if outfile:
+            # large outputs (exported cases, monitor verdict lines) go to a file; only TLC's own messages are kept in memory
+            with open(os.path.join(wd, outfile), "w") as fo:
+                p = subprocess.run(cmd, cwd=wd, stdout=fo, stderr=subprocess.STDOUT, timeout=timeout)
+            rc = p.returncode
+            keep = []
+            with open(os.path.join(wd, outfile), errors="replace") as fi:
+                for line in fi:
+                    if not line.startswith(keep_prefixes):
+                        keep.append(line)
+            out = "".join(keep[-4000:])
+        else:
+            p = subprocess.run(cmd, cwd=wd, stdout=subprocess.PIPE, stderr=subprocess.STDOUT, timeout=timeout, text=True,
+                               errors="replace")
+            out, rc = p.stdout, p.returncode
     except subprocess.TimeoutExpired as e:
         subprocess.run(["pkill", "-f", "tlc2.TL[C].*" + re.escape(meta)], check=False)
         out = (e.stdout or b"").decode(errors="replace") if isinstance(e.stdout, bytes) else (e.stdout or "")
@@ -98,13 +112,20 @@ def tlc(wd, module, cfg=None, workers=None, timeout=900, simulate=None, depth=No
 
 def go_build(wd, race=False, tags="verif", name="verif"):
     """(Re)build the harness against /repo's current working tree."""
-    shutil.copy(os.path.join(REPO, "go.sum"), os.path.join(HARNESS, "go.sum"))
+    hdir = HARNESS
+    if REPO != "/repo":
+        hdir = os.path.join(wd, "harness-copy")
+        if not os.path.exists(hdir):
+            shutil.copytree(HARNESS, hdir)
+            gm = open(os.path.join(hdir, "go.mod")).read().replace("=> /repo", "=> " + REPO)
+            open(os.path.join(hdir, "go.mod"), "w").write(gm)
+    shutil.copy(os.path.join(REPO, "go.sum"), os.path.join(hdir, "go.sum"))
     binp = os.path.join(wd, name)
     cmd = ["go", "build", "-tags", tags]
     if race:
         cmd.append("-race")
     cmd += ["-o", binp, "./cmd/verif"]
-    p = subprocess.run(cmd, cwd=HARNESS, env=GOENV, stdout=subprocess.PIPE, stderr=subprocess.STDOUT, text=True, timeout=900)
+    p = subprocess.run(cmd, cwd=hdir, env=GOENV, stdout=subprocess.PIPE, stderr=subprocess.STDOUT, text=True, timeout=900)
     if p.returncode != 0:
         raise Inconclusive("harness build failed against /repo:\n" + p.stdout[-4000:])
     return binp
@@ -153,7 +174,7 @@ def save_replay(pid, wd, files, seed, tier):
     return d
 
 
-def report(pid, viols, sig_of, describe, wd, files, seed, tier):
+def report(pid, viols, sig_of, describe, wd, files, seed, tier, extra_save=None):
     """viols: list of dict(line, rule, ...). Prints KNOWN-FINDING / VIOLATION lines. Returns (new, known) counts."""
     known = {k["signature"]: k for k in load_known().get("findings", []) if k.get("property") == pid}
     seen_known, new = {}, {}
@@ -167,6 +188,8 @@ def report(pid, viols, sig_of, describe, wd, files, seed, tier):
         log(f"KNOWN-FINDING: property={pid} {sig} {known[sig].get('what', '')}")
     if new:
         path = save_replay(pid, wd, files, seed, tier)
+        if extra_save:
+            extra_save(path, list(new.values()))
         with open(os.path.join(path, "violations.json"), "w") as f:
             json.dump([dict(signature=s, **describe(v)) for s, v in new.items()], f, indent=1, default=str)
         for sig, v in new.items():
